@@ -6,8 +6,10 @@ Since commit 610a39a (fix F8) the cache key is `(repr(value), dtype)` for scalar
 `(repr(tuple(value)), dtype)` for lists: two requests share an initializer exactly when the `repr`
 strings of their values and their key dtypes coincide.  `repr` of a Python `bool`/`int`/`float`
 determines the type and the value (sign of zero included; `repr` of floats is injective — assumption
-A-py), so key equality is `reprEq`: same Python type, same value, element by element.
-`True`, `1`, `1.0` are three keys; `0.0` and `-0.0` are two.
+A-py).  A `Scalar.f neg num den` stands for the float whose `as_integer_ratio()` is `num/den` (the
+encoding the harness uses: lowest terms, one triple per float), so key equality is `reprEq`:
+same Python type and the same encoding, element by element — i.e. equality of literals
+(`reprEq_iff_eq`).  `True`, `1`, `1.0` are three keys; `0.0` and `-0.0` are two.
 
 The pre-fix cache (keyed with Python `==`/`hash` on `(value, dtype)`: `True == 1 == 1.0`,
 `0.0 == -0.0`) is kept as `promotePre` for the record: its soundness statement is refuted in
@@ -18,11 +20,11 @@ namespace OV.Autocast
 /-! ## key equality -/
 
 /-- `repr(x) == repr(y)` for Python scalars: same type and same value (for floats: same sign — also of
-zero — and the same rational; two encodings `num/den` of one float have one `repr`). -/
+zero — and the same canonical ratio). -/
 def reprEqS : Scalar → Scalar → Bool
   | .b v, .b w => v == w
   | .i v, .i w => v == w
-  | .f s n d, .f s' n' d' => s == s' && n * d' == n' * d
+  | .f s n d, .f s' n' d' => s == s' && n == n' && d == d'
   | _, _ => false
 
 def reprEqList : List Scalar → List Scalar → Bool
@@ -82,14 +84,12 @@ abbrev Cache := List Entry
 def Cache.findBy (eq : Lit → Lit → Bool) (c : Cache) (l : Lit) (dt : Option DType) : Option Entry :=
   List.find? (fun e => eq e.key l && e.keyDt == dt) c
 
-/-- Key dtype: the requested dtype, else `_PYTHON_TYPE_TO_DTYPE.get(type(value))` (none for bool). -/
+/-- Key dtype: the requested dtype, else `_PYTHON_TYPE_TO_DTYPE.get(type(value))` (none for bool and, since
+fa769b8, for lists mixing types). -/
 def keyDType (l : Lit) (dt : Option DType) : Option DType :=
   match dt with
   | some d => some d
-  | none => match l.head.kind with
-    | .i => some .int64
-    | .f => some .float
-    | .b => Option.none
+  | none => builderKeyDType l
 
 def cname (l : Lit) (kd : Option DType) (n : Nat) : CName :=
   match l with
@@ -104,7 +104,7 @@ def promoteBy (eq : Lit → Lit → Bool) (c : Cache) (l : Lit) (dt : Option DTy
   match c.findBy eq l kd with
   | some e => .ok (c, e)
   | none =>
-    let d := kd.getD .bool
+    let d := kd.getD (irDefault l)
     match mapE (fun e => npCast e d) l.elems with
     | .error e => .error e
     | .ok vs =>
@@ -127,5 +127,72 @@ def promoteAllBy (eq : Lit → Lit → Bool) : Cache → List (Lit × Option DTy
 
 def promoteAll : Cache → List (Lit × Option DType) → Cache := promoteAllBy reprEq
 def promoteAllPre : Cache → List (Lit × Option DType) → Cache := promoteAllBy pyEq
+
+/-! ## `_cast_inputs` threaded through the cache, and histories of calls on one builder -/
+
+/-- An operand produced by the builder: what it is (`out`) and, for a promoted literal, the name of the
+initializer it refers to. -/
+structure BOut where
+  out : Out
+  init : Option CName
+  deriving DecidableEq, Repr
+
+section
+variable {κ : Type} [DecidableEq κ]
+
+/-- `adapt` of `BuilderBase._cast_inputs` with `GraphBuilder._promote_constant` = the cache. -/
+def emitBuilderC (sa : List (Slot κ × Arg)) (c : Cache) (p : Slot κ × Arg) : Except Err (Cache × BOut) :=
+  match p.2 with
+  | .none => .ok (c, ⟨.none, none⟩)
+  | .tensor dt _ => .ok (c, ⟨.pass dt, none⟩)
+  | .lit l =>
+    match targetFirst sa p.1 with
+    | some (dt, true) =>
+      match promote c l (some dt) with
+      | .error e => .error e
+      | .ok (c', e) => .ok (c', ⟨.const e.dtype l.isList e.vals, some e.name⟩)
+    | some (dt, false) =>
+      match promote c l none with
+      | .error e => .error e
+      | .ok (c', e) => .ok (c', ⟨.const dt l.isList (e.vals.map (onnxCast e.dtype dt)), some e.name⟩)
+    | none =>
+      match promote c l none with
+      | .error e => .error e
+      | .ok (c', e) => .ok (c', ⟨.const e.dtype l.isList e.vals, some e.name⟩)
+
+/-- The list comprehension `[adapt(x, typevar) for …]`: arguments in order; an exception leaves the
+initializers already created for earlier arguments in the cache. -/
+def mapBuilderC (sa : List (Slot κ × Arg)) : Cache → List (Slot κ × Arg) → Cache × Except Err (List BOut)
+  | c, [] => (c, .ok [])
+  | c, p :: ps =>
+    match emitBuilderC sa c p with
+    | .error e => (c, .error e)
+    | .ok (c', o) =>
+      match mapBuilderC sa c' ps with
+      | (c'', .error e) => (c'', .error e)
+      | (c'', .ok os) => (c'', .ok (o :: os))
+
+/-- `BuilderBase._cast_inputs` on a `GraphBuilder` whose constant cache is `c`. -/
+def castBuilderC (c : Cache) (fs : List (Formal κ)) (args : List Arg) : Cache × Except Err (List BOut) :=
+  match assign fs args with
+  | .error e => (c, .error e)
+  | .ok sa => mapBuilderC sa c sa
+
+/-- A history: calls (signature as read for that (op, opset), arguments) made one after the other on one builder.
+Returns the results in order and the final cache. -/
+def runCalls : Cache → List (List (Formal κ) × List Arg) → List (Except Err (List BOut)) × Cache
+  | c, [] => ([], c)
+  | c, (fs, args) :: rest =>
+    let (c', r) := castBuilderC c fs args
+    let (rs, c'') := runCalls c' rest
+    (r :: rs, c'')
+
+end
+
+/-- The operands without the initializer names. -/
+def outsOf (r : Except Err (List BOut)) : Except Err (List Out) :=
+  match r with
+  | .ok os => .ok (os.map (·.out))
+  | .error e => .error e
 
 end OV.Autocast
